@@ -102,7 +102,7 @@
 //     holds both.  The shape is therefore accepted exactly when no translated function mentions the function (the
 //     alias reaches untranslated callers only, about which the generated file claims nothing) and the function itself
 //     writes neither to its receiver nor to a parameter; the generated doc comment carries the remark;
-//   - float64 is COPY-ONLY (`Go.F64`, a bit pattern): field reads, struct literals, assignment, arguments, results and
+//   - float64 (and float32: `Go.F32`) is COPY-ONLY (`Go.F64`, a bit pattern): field reads, struct literals, assignment, arguments, results and
 //     slice elements move it around unchanged, which is all Go does on a copy; EVERY operator, comparison (also `==`
 //     on a struct or array containing one: IEEE `==` is not equality of bit patterns), conversion, constant, max / min
 //     on the type is refused, so the translated code depends on no property of floating-point numbers at all;
@@ -372,16 +372,14 @@ func main() {
 	}
 	// inSkipped: the position lies inside a function that is not translated
 	inSkipped := func(pos token.Pos) bool {
-		for _, f := range files {
-			if f.Pos() <= pos && pos <= f.End() {
-				for _, d := range f.Decls {
-					if fd, ok := d.(*ast.FuncDecl); ok && fd.Pos() <= pos && pos <= fd.End() {
-						name := fd.Name.Name
-						if fd.Recv != nil {
-							name = recvTypeName(fd) + "." + name
-						}
-						return skipNames[name]
+		for _, f := range files { // (positions are unique across the file set; a file's own extent is not used: the
+			for _, d := range f.Decls { // rewritings append declarations without positions)
+				if fd, ok := d.(*ast.FuncDecl); ok && fd.Pos().IsValid() && fd.Pos() <= pos && pos <= fd.End() {
+					name := fd.Name.Name
+					if fd.Recv != nil {
+						name = recvTypeName(fd) + "." + name
 					}
+					return skipNames[name]
 				}
 			}
 		}
@@ -399,6 +397,13 @@ func main() {
 		}
 	}
 	dv.params()
+	cc := &closureConv{files: dv.files, done: map[*ast.FuncDecl]bool{}, skipped: func(fd *ast.FuncDecl) bool {
+		name := fd.Name.Name
+		if fd.Recv != nil {
+			name = recvTypeName(fd) + "." + name
+		}
+		return skipNames[name]
+	}}
 	var typeErrs []string
 	var pkg *types.Package
 	for round := 0; ; round++ {
@@ -423,7 +428,8 @@ func main() {
 		}
 		c1 := dv.results(info, pkg)
 		c2 := dv.iterators(info, pkg)
-		if !c1 && !c2 {
+		c3 := cc.convert(info)
+		if !c1 && !c2 && !c3 {
 			break
 		}
 	}
@@ -473,6 +479,9 @@ func main() {
 	sort.Strings(dv.applied)
 	for _, a := range dv.applied {
 		fmt.Fprintf(&b, "DEVIRTUALISED (extract/go2lean/devirt.go): %s\n", a)
+	}
+	for _, a := range cc.applied {
+		fmt.Fprintf(&b, "REWRITTEN: %s\n", a)
 	}
 	b.WriteString("-/\nset_option linter.unusedVariables false\n")
 	fmt.Fprintf(&b, "namespace %s\nopen AlgoVerif\n\n", *ns)
